@@ -56,6 +56,9 @@ def gen_trace(seed, world, tier):
         rank = 0
     sigma = [v if i < rank else 0.0 for i, v in enumerate(base)]
     A = {"gen": "psvd", "m": m, "n": n, "sigma": sigma, "seed": R_.randrange(10 ** 6)}
+    scale = R_.choice([0, 0, 0, 0, 0, -3, 3, -6, 6, -9, 9, -13, 13])   # "for every quaternion matrix"
+    if scale:
+        A = {"gen": "scale", "of": A, "c": 10.0 ** scale}
     if R_.random() < 0.5:
         P = R_.randint(0, 10)
     else:   # bias towards sketches wider than the matrix
@@ -66,7 +69,7 @@ def gen_trace(seed, world, tier):
     else:
         fn, kw = "decomp.qsvd.pass_eff_qsvd", {"oversample": P, "n_passes": R_.randint(2, 5)}
     tags = {"routine": routine, "m": m, "n": n, "rank": rank, "R": Rk, "P": P, "family": fam,
-            "wide_sketch": Rk + P > k, "zero": rank == 0}
+            "wide_sketch": Rk + P > k, "zero": rank == 0, "scale": scale}
     tags.update(regime_tags(sigma, Rk))
     steps = [{"k": "rng", "op": "seed", "v": R_.randrange(10 ** 6), "client": 0}]
     for _ in range(R_.randint(0, 2)):
@@ -191,7 +194,7 @@ def signature(trace, result):
     for s in trace["steps"]:
         if s["k"] == "fn":
             t = s["tags"]
-            sig.append((t["routine"], t["m"], t["n"], t["family"], t["rank"], t["R"], t["P"],
+            sig.append((t["routine"], t["m"], t["n"], t["family"], t["rank"], t["R"], t["P"], t.get("scale"),
                         tuple(sorted(s["kwargs"].items()))))
         else:
             sig.append((s["k"], s.get("op")))
@@ -222,6 +225,12 @@ def simplify(trace):
             continue
         t = s["tags"]
         A = s["args"][0]
+        if A.get("gen") == "scale":
+            tr = json.loads(json.dumps(trace))
+            tr["steps"][si]["args"][0] = A["of"]
+            tr["steps"][si]["tags"]["scale"] = 0
+            out.append(tr)
+            continue
         cands = []
         if t["P"] > 0:
             cands.append(("P", t["P"] - 1))
